@@ -449,3 +449,62 @@ theorem add_spec (a b : ABuf) : Buf.add (Buf.ofABuf a) (Buf.ofABuf b) = .ok (Buf
     · exact add_right A B sb hB
 
 end Schc
+
+namespace Schc
+open Bits
+
+/-- `b[s:e]` for resolved bounds `s ≤ e ≤ len(b)` on a canonical Buffer: bits `s..e`, same side -/
+theorem getRange_spec (a : ABuf) (s e : Nat) (hse : s ≤ e) (hen : e ≤ a.length) :
+    Buf.getRange (Buf.ofABuf a) s e = .ok (Buf.ofABuf (a.slice s e)) := by
+  obtain ⟨bits, side⟩ := a
+  by_cases h : s = e
+  · subst h
+    unfold Buf.getRange
+    simp only [Nat.sub_self, if_true, Buf.ofABuf, ABuf.slice, Bits.slice, List.take_zero]
+    exact new_nil side
+  · cases side
+    · exact getRange_left bits s e (by omega) hen
+    · exact getRange_right bits s e (by omega) hen
+
+/-- `b[i]` (one-bit Buffer) -/
+theorem getBit_spec (a : ABuf) (i : Nat) (hi : i < a.length) :
+    Buf.getBit (Buf.ofABuf a) i = .ok (Buf.ofABuf (a.slice i (i + 1))) := by
+  unfold Buf.getBit
+  have : ¬ (i ≥ (Buf.ofABuf a).length) := by simp [Buf.ofABuf]; omega
+  simp only [this, if_false, bind, Except.bind]
+  exact getRange_spec a i (i + 1) (by omega) (by omega)
+
+theorem sliceBound_le (len : Nat) (x : Option Int) (d : Nat) (hd : d ≤ len) : Buf.sliceBound len x d ≤ len := by
+  unfold Buf.sliceBound
+  cases x with
+  | none => exact hd
+  | some i =>
+    simp only
+    split
+    · omega
+    · exact Nat.min_le_right _ _
+
+/-- `b[start:stop]` with optional, possibly negative bounds (`slice.indices`), `start ≤ stop` after resolution -/
+theorem getSlice_spec (a : ABuf) (start stop : Option Int)
+    (h : Buf.sliceBound a.length start 0 ≤ Buf.sliceBound a.length stop a.length) :
+    Buf.getSlice (Buf.ofABuf a) start stop =
+      .ok (Buf.ofABuf (a.slice (Buf.sliceBound a.length start 0) (Buf.sliceBound a.length stop a.length))) := by
+  unfold Buf.getSlice
+  have hl : (Buf.ofABuf a).length = a.length := rfl
+  have : ¬ (Buf.sliceBound a.length start 0 > Buf.sliceBound a.length stop a.length) := by omega
+  simp only [hl, this, if_false, bind, Except.bind]
+  exact getRange_spec a _ _ h (sliceBound_le _ _ _ (Nat.le_refl _))
+
+/-- `b[s:e] = values` (`__setitem__`): prefix, the values, postfix; side and identity of `b` kept -/
+theorem setRange_spec (a v : ABuf) (s e : Nat) (hse : s ≤ e) (hen : e ≤ a.length) :
+    Buf.setRange (Buf.ofABuf a) s e (Buf.ofABuf v) = .ok (Buf.ofABuf ⟨a.bits.take s ++ v.bits ++ a.bits.drop e, a.side⟩) := by
+  unfold Buf.setRange
+  have hl : (Buf.ofABuf a).length = a.length := rfl
+  simp only [hl, bind, Except.bind, getRange_spec a 0 s (by omega) (by omega), getRange_spec a e a.length hen (Nat.le_refl _),
+    add_spec, pure, Except.pure]
+  obtain ⟨A, side⟩ := a
+  simp only [Buf.ofABuf, ABuf.add, ABuf.slice, Bits.slice, List.drop_zero, Nat.sub_zero, ABuf.length]
+  have : List.take (A.length - e) (List.drop e A) = List.drop e A := List.take_of_length_le (by simp)
+  rw [this]
+
+end Schc
